@@ -1236,6 +1236,8 @@ fn inproc_stream(args: &Args, rng: &mut Rng) {
         st.case();
         for l in read_lines(p) {
             if l.starts_with('#') || l.starts_with("case ") { continue; }
+            // lines of the child-process stream are not this stream's business
+            if l.starts_with("conn ") || l.starts_with("setcluster ") || l.starts_with("phase ") { continue; }
             let toks: Vec<&str> = l.split(' ').collect();
             run_inproc_op(&toks, &mut st, &l);
         }
@@ -1350,7 +1352,10 @@ fn run_child_conn(cx: &mut ChildCtx, st: &mut Streams, input: &[u8], hint: Optio
         hint.unwrap_or((0, Tail::Unknown))
     };
     cx.nonce += 1;
-    let obs = run_conn(&mut cx.proxy, input, k, tail, cx.nonce, cx.quiet_ms);
+    // a header that over-declares may make the session panic or the process abort a little later: wait longer
+    // before calling such a connection `pending`
+    let quiet = if pred_f4(input) { 1500 } else { cx.quiet_ms };
+    let obs = run_conn(&mut cx.proxy, input, k, tail, cx.nonce, quiet);
     cx.walls.push(obs.wall_ms);
     let kind = obs.line.split(' ').next().unwrap_or("?").to_string();
     st.stats.count(&format!("out.{}.{}", cx.phase, kind));
